@@ -194,6 +194,58 @@ theorem C13_source_repeated_writer (oracle : Nat → Bytes) (always : Bool) (k :
       = .ok (⟨enc.data ++ Enc.writeRepeated always k field (vs.map (toS k)), t⟩, vs) :=
   writeRepeated_tie oracle always k field enc vs hr hsz
 
+theorem wrapS32_toU32 (w : Int) (hv : (-2147483648 : Int) ≤ w ∧ w < 2147483648) :
+    Go.wrapS 32 ((Go.toU 32 w : Nat) : Int) = w := by
+  unfold Go.wrapS Go.toU
+  simp only [show (2:Int)^32 = 4294967296 from by decide, show (2:Int)^(32-1) = 2147483648 from by decide]
+  split <;> omega
+
+theorem wrapS64_toU64 (w : Int) (hv : (-9223372036854775808 : Int) ≤ w ∧ w < 9223372036854775808) :
+    Go.wrapS 64 ((Go.toU 64 w : Nat) : Int) = w := by
+  unfold Go.wrapS Go.toU
+  simp only [show (2:Int)^64 = 18446744073709551616 from by decide, show (2:Int)^(64-1) = 9223372036854775808 from by decide]
+  split <;> omega
+
+open Pico.GoTie.DT Pico.GoTie.ET in
+/-- the Go value of the bit pattern of a Go value is that value (every kind, every value of the type) -/
+theorem C13_source_value_bits_roundtrip (k : Scalar) (v : GoVal k) (h : InRange k v) : unS k (toS k v) = v := by
+  cases k
+  case bool => cases v <;> rfl
+  case int32 => exact wrapS32_toU32 v h
+  case sint32 => exact wrapS32_toU32 v h
+  case sfixed32 => exact wrapS32_toU32 v h
+  case int64 => exact wrapS64_toU64 v h
+  case sint64 => exact wrapS64_toU64 v h
+  case sfixed64 => exact wrapS64_toU64 v h
+  all_goals rfl
+
+open Pico.GoTie.DT Pico.GoTie.ET in
+/-- SOURCE: what the translated writer of kind `k` appended, the translated reader of kind `k` reads
+back: positioned on the payload the writer produced for `v` (any variant), with any bytes after it,
+`Decoder.<Kind>` stores exactly `v` and advances past exactly the payload — for every kind and every
+value of the Go type. -/
+theorem C13_source_reader_inverts_writer (k : Scalar) (var : Variant) (field : Int) (d : Dec) (v x : GoVal k)
+    (h : InRange k v) (rest : Bytes)
+    (hp : d.cur.pendingField = field) (hw : d.cur.pendingWire = k.wire)
+    (hb : d.cur.buffer = Enc.scalarPayload var k (toS k v) ++ rest) :
+    srcReadSingle k field d x =
+      (nextField d ((Enc.scalarPayload var k (toS k v)).length : Int)).bind fun d' => .ok (d', v) := by
+  have hok : svalOk k (toS k v) := by
+    cases k
+    case string =>
+      have hl : v.length < 9223372036854775808 := h
+      exact ⟨rfl, by show v.length < 2 ^ 64; have : (2:Nat)^64 = 18446744073709551616 := by decide
+                     omega⟩
+    case bytes =>
+      have hl : v.length < 9223372036854775808 := h
+      exact ⟨rfl, by show v.length < 2 ^ 64; have : (2:Nat)^64 = 18446744073709551616 := by decide
+                     omega⟩
+    all_goals exact ⟨rfl, toS_lt _ rfl v h⟩
+  have hcs := consumeScalar_scalarPayload false var k (toS k v) hok rest
+  rw [← hb] at hcs
+  rw [C13_source_reader_consumes k field d x hp hw (by rw [hcs]; exact Int.natCast_nonneg _), hcs]
+  simp only [C13_source_value_bits_roundtrip k v h]
+
 /-- TIE: decoder_types.go / encoder_types.go declare exactly the 30 readers and 60 writers translated -/
 theorem C13_source_coverage : GoSrc.DecTypes.names.length = 30 ∧ GoSrc.EncTypes.names.length = 60 :=
   ⟨by rw [Pico.GoTie.DT.names_expected]; rfl, Pico.GoTie.ET.names_expected.1⟩
